@@ -126,6 +126,12 @@ impl World {
         self.clients[m].group_state(&gid) == Some(group_types::GroupState::Active)
     }
 
+    /// what the MLS layer itself says (None = no MLS group stored)
+    pub fn mls_active(&self, m: usize, g: usize) -> Option<bool> {
+        let gid = self.gid(g);
+        with_mdk!(self.clients[m].mdk, x => x.load_mls_group(&gid).ok().flatten().map(|grp| grp.is_active()))
+    }
+
     pub fn members_at(&self, m: usize, g: usize) -> BTreeSet<nostr::PublicKey> {
         let gid = self.gid(g);
         with_mdk!(self.clients[m].mdk, x => x.get_members(&gid).unwrap_or_default())
